@@ -1,5 +1,7 @@
 import TinsModel.RadioTap.LemmasGet
-/- Helper lemmas for C11, part 7: serialization header and re-parse. -/
+import TinsModel.RadioTap.LemmasSafeWrite
+/- Helper lemmas for C11, part 7: serialization header and re-parse — for every options payload the parser's
+   constructor accepts, and specialised to well-aligned headers of a map. -/
 namespace Tins.RT
 
 /-- FLAGS written with the FCS bit (0x10) -/
@@ -28,86 +30,107 @@ theorem trailerSize_eq {M : Meta} (hwf : M.wf) (hflags : M.size 1 = 1) {m : FMap
   unfold fcsOn
   cases m 1 <;> simp
 
-/-- the parsing constructor applied to what serialization produces gives back the same header state and hands the
-    inner frame's bytes (without the FCS) to the 802.11 parser -/
-theorem parseCtor_serialized {M : Meta} (hwf : M.wf) (hflags : M.size 1 = 1) {m : FMap} (hm : sized M m)
-    (ver pad innerLen : Nat) (hver : ver < 256) (hpad : pad < 256)
-    (hlen : 4 + (canonical M m).length < 65536)
-    (hinner : 4 ≤ innerLen + (if fcsOn m then 4 else 0))
-    (hok : ¬ (fcsOn m = true ∧ badFcs m = true)) :
-    parseCtor M ([UInt8.ofNat ver, UInt8.ofNat pad, UInt8.ofNat ((4 + (canonical M m).length) % 256),
-                  UInt8.ofNat ((4 + (canonical M m).length) / 256 % 256)] ++ canonical M m)
-              (4 + (canonical M m).length + (if fcsOn m then 4 else 0) + innerLen)
-      = .ok ({ version := ver, pad := pad, payload := canonical M m }, innerLen) := by
-  have hso := fieldList_sorted M m
-  have hsz := fieldList_sized hm
-  obtain ⟨p0, hp0, hpat0, _, _⟩ := mk_canonL hwf hso hsz
-  have hclen := canonL_length M (fieldList M m)
-  have h8 := le_encEnd M (fieldList M m) 8
-  have hcl : (canonical M m).length = (canonL M (fieldList M m)).length := rfl
-  generalize htr : (if fcsOn m then 4 else 0) = tr at hinner ⊢
+/-! ### any payload -/
+
+/-- the byte of the FLAGS field the parser reaches in a payload (`none`: it reaches none) — what the parsing
+    constructor dereferences through `current_option_ptr()` and `trailer_size()` reads through `current_option()` -/
+def flagsByte (M : Meta) (payload : Bytes) : Option Nat :=
+  match Parser.mk' M payload with
+  | .ok p =>
+    let r := skipToField M (loopFuel M payload) p 1
+    if r.2 then some (byteAt payload r.1.ptr) else none
+  | _ => none
+
+def fcsOf (fb : Option Nat) : Bool :=
+  match fb with
+  | some f => f / 16 % 2 == 1
+  | none => false
+
+def badFcsOf (fb : Option Nat) : Bool :=
+  match fb with
+  | some f => f / 64 % 2 == 1
+  | none => false
+
+theorem byteAt_take_drop (buf : Bytes) (p n : Nat) (hn : 0 < n) : byteAt ((buf.drop p).take n) 0 = byteAt buf p := by
+  simp [byteAt, List.getD_eq_getElem?_getD, hn, List.getElem?_drop]
+
+/-- **`trailer_size()` on any accepted payload**: never throws, and is 4 exactly when the FLAGS byte the parser reaches
+    has the FCS bit -/
+theorem trailerSize_any {M : Meta} (hflags : M.size 1 = 1) (payload : Bytes) (p : Parser) (hmk : Parser.mk' M payload = .ok p)
+    (h4 : 4 ≤ payload.length) :
+    trailerSize M payload = .ok (if fcsOf (flagsByte M payload) then 4 else 0) := by
+  rcases mkC_spec M payload with ⟨hnil, _⟩ | ⟨_, hthrow⟩ | ⟨_, c, k, _, hmk', hc, hg, _, _⟩
+  · subst hnil; simp at h4
+  · rw [hmk] at hthrow; cases hthrow
+  · rw [hmk] at hmk'
+    have hp : p = c.p := by injection hmk'
+    obtain ⟨c', _, hg', hx, hall⟩ := skipToFieldC_spec hc 1 (loopFuel M payload) c hg (loopFuel_gt_mu M payload k c.p)
+    have hskip := hall (loopFuel M payload) (loopFuel_gt_mu M payload k c.p)
+    unfold trailerSize flagsByte
+    simp only [hmk, hp, hskip]
+    by_cases hh : hasFields M c'.p = true
+    · obtain ⟨_, hptr⟩ := hasFields_lt hg' hh
+      have hbit := hx hh
+      simp only [hh, if_true, fcsOf]
+      unfold currentOption
+      rw [hbit, hflags, hg'.buf]
+      have : ¬ (c'.p.ptr + 1 > payload.length) := by omega
+      simp only [this, if_false]
+      have hl : ((payload.drop c'.p.ptr).take 1).length = 1 := by
+        simp only [List.length_take, List.length_drop]; omega
+      simp only [hl, bne_self_eq_false, Bool.false_eq_true, if_false, byteAt_take_drop _ _ _ (Nat.lt_succ_self 0)]
+    · simp [hh, fcsOf]
+
+/-- **re-parsing what serialization produces, for any accepted payload**: the parsing constructor applied to the 4-byte
+    fixed header (length field = 4 + |payload|) followed by the payload gives back version, pad and the same payload
+    and hands the inner frame's bytes (without the FCS) to the 802.11 parser -/
+theorem parseCtor_serialized_any {M : Meta} (payload : Bytes) (p : Parser) (hmk : Parser.mk' M payload = .ok p)
+    (h4 : 4 ≤ payload.length) (ver pad innerLen : Nat) (hver : ver < 256) (hpad : pad < 256)
+    (hlen : 4 + payload.length < 65536)
+    (hinner : 4 ≤ innerLen + (if fcsOf (flagsByte M payload) then 4 else 0))
+    (hok : ¬ (fcsOf (flagsByte M payload) = true ∧ badFcsOf (flagsByte M payload) = true)) :
+    parseCtor M ([UInt8.ofNat ver, UInt8.ofNat pad, UInt8.ofNat ((4 + payload.length) % 256),
+                  UInt8.ofNat ((4 + payload.length) / 256 % 256)] ++ payload)
+              (4 + payload.length + (if fcsOf (flagsByte M payload) then 4 else 0) + innerLen)
+      = .ok ({ version := ver, pad := pad, payload := payload }, innerLen) := by
+  generalize htr : (if fcsOf (flagsByte M payload) then 4 else 0) = tr at hinner ⊢
   have htr4 : tr = 0 ∨ tr = 4 := by
-    rw [← htr]; cases fcsOn m <;> simp
+    rw [← htr]; cases fcsOf (flagsByte M payload) <;> simp
   unfold parseCtor
-  have hb2 : byteAt ([UInt8.ofNat ver, UInt8.ofNat pad, UInt8.ofNat ((4 + (canonical M m).length) % 256),
-      UInt8.ofNat ((4 + (canonical M m).length) / 256 % 256)] ++ canonical M m) 2 = (4 + (canonical M m).length) % 256 := by
+  have hb2 : byteAt ([UInt8.ofNat ver, UInt8.ofNat pad, UInt8.ofNat ((4 + payload.length) % 256),
+      UInt8.ofNat ((4 + payload.length) / 256 % 256)] ++ payload) 2 = (4 + payload.length) % 256 := by
     simp [byteAt]
-  have hb3 : byteAt ([UInt8.ofNat ver, UInt8.ofNat pad, UInt8.ofNat ((4 + (canonical M m).length) % 256),
-      UInt8.ofNat ((4 + (canonical M m).length) / 256 % 256)] ++ canonical M m) 3 = (4 + (canonical M m).length) / 256 % 256 := by
+  have hb3 : byteAt ([UInt8.ofNat ver, UInt8.ofNat pad, UInt8.ofNat ((4 + payload.length) % 256),
+      UInt8.ofNat ((4 + payload.length) / 256 % 256)] ++ payload) 3 = (4 + payload.length) / 256 % 256 := by
     simp [byteAt]
-  have hb0 : byteAt ([UInt8.ofNat ver, UInt8.ofNat pad, UInt8.ofNat ((4 + (canonical M m).length) % 256),
-      UInt8.ofNat ((4 + (canonical M m).length) / 256 % 256)] ++ canonical M m) 0 = ver := by
+  have hb0 : byteAt ([UInt8.ofNat ver, UInt8.ofNat pad, UInt8.ofNat ((4 + payload.length) % 256),
+      UInt8.ofNat ((4 + payload.length) / 256 % 256)] ++ payload) 0 = ver := by
     simp [byteAt]; omega
-  have hb1 : byteAt ([UInt8.ofNat ver, UInt8.ofNat pad, UInt8.ofNat ((4 + (canonical M m).length) % 256),
-      UInt8.ofNat ((4 + (canonical M m).length) / 256 % 256)] ++ canonical M m) 1 = pad := by
+  have hb1 : byteAt ([UInt8.ofNat ver, UInt8.ofNat pad, UInt8.ofNat ((4 + payload.length) % 256),
+      UInt8.ofNat ((4 + payload.length) / 256 % 256)] ++ payload) 1 = pad := by
     simp [byteAt]; omega
-  have hlenfield : (4 + (canonical M m).length) % 256 + 256 * ((4 + (canonical M m).length) / 256 % 256)
-      = 4 + (canonical M m).length := by omega
-  have hdrop : (([UInt8.ofNat ver, UInt8.ofNat pad, UInt8.ofNat ((4 + (canonical M m).length) % 256),
-      UInt8.ofNat ((4 + (canonical M m).length) / 256 % 256)] ++ canonical M m).drop 4).take (4 + (canonical M m).length - 4)
-      = canonical M m := by
+  have hlenfield : (4 + payload.length) % 256 + 256 * ((4 + payload.length) / 256 % 256) = 4 + payload.length := by omega
+  have hdrop : (([UInt8.ofNat ver, UInt8.ofNat pad, UInt8.ofNat ((4 + payload.length) % 256),
+      UInt8.ofNat ((4 + payload.length) / 256 % 256)] ++ payload).drop 4).take (4 + payload.length - 4) = payload := by
     simp
-  have c1 : ¬ (4 + (canonical M m).length + tr + innerLen < 4) := by omega
-  have c2 : ¬ (4 + (canonical M m).length < 8) := by rw [hcl]; omega
-  have c3 : ¬ (4 + (canonical M m).length - 4 + 4 > 4 + (canonical M m).length + tr + innerLen - 4) := by omega
+  have c1 : ¬ (4 + payload.length + tr + innerLen < 4) := by omega
+  have c2 : ¬ (4 + payload.length < 8) := by omega
+  have c3 : ¬ (4 + payload.length - 4 + 4 > 4 + payload.length + tr + innerLen - 4) := by omega
   simp only [hb0, hb1, hb2, hb3, hlenfield, c1, c2, c3, if_false, hdrop]
-  have hrest : 4 + (canonical M m).length + tr + innerLen - 4 - (4 + (canonical M m).length - 4) = tr + innerLen := by omega
+  have hrest : 4 + payload.length + tr + innerLen - 4 - (4 + payload.length - 4) = tr + innerLen := by omega
   rw [hrest]
-  unfold canonical
-  simp only [hp0]
-  cases hmb : m 1 with
-  | some v =>
-    obtain ⟨hb, hv⟩ := hm 1 v hmb
-    have hsplit := fieldList_split M m 1 hb
-    simp only [optL, hmb, List.singleton_append] at hsplit
-    have hlo : ∀ f ∈ fieldsFrom m 1 0, f.1 < 1 := fun f hf => by
-      have := fieldsFrom_mem hf; omega
-    have hfound := skipToField_found hwf hso hsz 1 v (fieldsFrom m (M.max - 1 - 1) (1 + 1)) (fieldsFrom m 1 0) [] p0
-      (loopFuel M (canonL M (fieldList M m))) (by simpa using hsplit) hlo (by rw [← hsplit]; exact hpat0)
-      (by
-        have hs1 : Sorted (fieldsFrom m 1 0) := fieldsFrom_sorted m _ _
-        have hz1 : Sized M (fieldsFrom m 1 0) := by
-          intro f hf; apply hsz f; rw [hsplit]; exact List.mem_append_left _ hf
-        exact length_lt_loopFuel hs1 hz1 _)
-    simp only [hfound, List.nil_append, if_true]
-    have hbyte : byteAt (canonL M (fieldList M m)) (stAt M (fieldList M m) (fieldsFrom m 1 0) 1).ptr = byteAt v 0 := by
-      have hs2 := canonL_split M (fieldsFrom m 1 0) (fieldsFrom m (M.max - 1 - 1) (1 + 1)) 1 v
-      have hpl := canonL_split_len M (fieldsFrom m 1 0) 1
-        (presentWord (fieldsFrom m 1 0 ++ (1, v) :: fieldsFrom m (M.max - 1 - 1) (1 + 1)))
-      have hptr : (stAt M (fieldList M m) (fieldsFrom m 1 0) 1).ptr
-          = encEnd M (fieldsFrom m 1 0) 8 + padTo (M.align 1) (encEnd M (fieldsFrom m 1 0) 8) - 4 := rfl
-      rw [hptr, hsplit, hs2, ← hpl, byteAt_append_right, byteAt_append_left0 _ _ (by omega)]
-    rw [hbyte]
-    have hfcs : fcsOn m = (byteAt v 0 / 16 % 2 == 1) := by simp [fcsOn, hmb]
-    have hbad : badFcs m = (byteAt v 0 / 64 % 2 == 1) := by simp [badFcs, hmb]
-    rw [hfcs] at htr hok
-    rw [hbad] at hok
-    cases hF : (byteAt v 0 / 16 % 2 == 1) with
+  simp only [hmk]
+  unfold flagsByte at htr hok
+  simp only [hmk] at htr hok
+  cases hr : (skipToField M (loopFuel M payload) p 1).2 with
+  | true =>
+    simp only [hr, if_true, fcsOf, badFcsOf] at htr hok ⊢
+    cases hF : (byteAt payload (skipToField M (loopFuel M payload) p 1).1.ptr / 16 % 2 == 1) with
     | true =>
       rw [hF] at htr hok
       simp only [if_true] at htr
-      have hnb : (byteAt v 0 / 64 % 2 == 1) = false := by
-        cases hB : (byteAt v 0 / 64 % 2 == 1) with
+      have hnb : (byteAt payload (skipToField M (loopFuel M payload) p 1).1.ptr / 64 % 2 == 1) = false := by
+        cases hB : (byteAt payload (skipToField M (loopFuel M payload) p 1).1.ptr / 64 % 2 == 1) with
         | true => exact absurd ⟨rfl, hB⟩ hok
         | false => rfl
       have c4 : ¬ (tr + innerLen < 4) := by omega
@@ -119,18 +142,73 @@ theorem parseCtor_serialized {M : Meta} (hwf : M.wf) (hflags : M.size 1 = 1) {m 
       simp only [Bool.false_eq_true, if_false] at htr
       subst htr
       simp
-  | none =>
-    have hne : ∀ f ∈ fieldList M m, f.1 ≠ 1 := by
-      intro f hf hfb
-      have := (fieldsFrom_mem hf).2.2
-      rw [hfb, hmb] at this
-      cases this
-    have habs := skipToField_absent hwf hso hsz 1 (fieldList M m) [] p0 (loopFuel M (canonL M (fieldList M m)))
-      (by simp) hne hpat0 (length_lt_loopFuel hso hsz _)
-    have : fcsOn m = false := by simp [fcsOn, hmb]
-    rw [this] at htr
-    simp only [Bool.false_eq_true, if_false] at htr
+  | false =>
+    simp only [hr, Bool.false_eq_true, if_false, fcsOf] at htr ⊢
     subst htr
+    simp
+
+/-! ### well-aligned headers of a map -/
+
+/-- on the well-aligned header of a map the parser reaches the FLAGS byte the map stores -/
+theorem flagsByte_layout {M : Meta} (hwf : M.wf) {F : Frame} (hF : F.ok M) (hin : F.inert M) {m : FMap} (hm : sized M m) :
+    flagsByte M (layL M F (fieldList M m)) = (m 1).map (fun v => byteAt v 0) := by
+  obtain ⟨p0, hp0, hpat0, _, _⟩ := mk_layL hwf hF (fieldList_sorted M m) (fieldList_sized hm)
+  unfold flagsByte
+  simp only [hp0]
+  cases hmb : m 1 with
+  | some v =>
+    obtain ⟨hsplit, hfound⟩ := skipToField_map_found hwf hF hm 1 v hmb hpat0
+    obtain ⟨hb1, hv⟩ := hm 1 v hmb
+    have hpos := (hwf.2 1 hb1).1
+    simp only [hfound, if_true, Option.map_some]
+    congr 1
+    have hs2 := layL_split M F (fieldsFrom m 1 0) (fieldsFrom m (M.max - 1 - 1) (1 + 1)) 1 v
+    have hpl := layL_split_len M F (fieldsFrom m 1 0) 1
+      (presentWord (fieldsFrom m 1 0 ++ (1, v) :: fieldsFrom m (M.max - 1 - 1) (1 + 1)) ||| F.hb)
+    have hptr : (stAt M F (fieldList M m) (fieldsFrom m 1 0) 1).ptr
+        = encEnd M (fieldsFrom m 1 0) F.base + padTo (M.align 1) (encEnd M (fieldsFrom m 1 0) F.base) - 4 := rfl
+    rw [hptr, hsplit, hs2, ← hpl, byteAt_append_right, byteAt_append_left0 _ _ (by omega)]
+  | none =>
+    have habs := skipToField_map_absent hwf hF hin hm 1 hmb hpat0
     simp [habs]
+
+theorem fcsOf_layout {M : Meta} (hwf : M.wf) {F : Frame} (hF : F.ok M) (hin : F.inert M) {m : FMap} (hm : sized M m) :
+    fcsOf (flagsByte M (layL M F (fieldList M m))) = fcsOn m ∧ badFcsOf (flagsByte M (layL M F (fieldList M m))) = badFcs m := by
+  rw [flagsByte_layout hwf hF hin hm]
+  unfold fcsOf badFcsOf fcsOn badFcs
+  cases m 1 <;> simp
+
+/-- the parsing constructor applied to what serialization produces from a well-aligned header gives back the same
+    header state and hands the inner frame's bytes (without the FCS) to the 802.11 parser -/
+theorem parseCtor_serialized_layout {M : Meta} (hwf : M.wf) {F : Frame} (hF : F.ok M) (hin : F.inert M)
+    {m : FMap} (hm : sized M m)
+    (ver pad innerLen : Nat) (hver : ver < 256) (hpad : pad < 256)
+    (hlen : 4 + (layL M F (fieldList M m)).length < 65536)
+    (hinner : 4 ≤ innerLen + (if fcsOn m then 4 else 0))
+    (hok : ¬ (fcsOn m = true ∧ badFcs m = true)) :
+    parseCtor M ([UInt8.ofNat ver, UInt8.ofNat pad, UInt8.ofNat ((4 + (layL M F (fieldList M m)).length) % 256),
+                  UInt8.ofNat ((4 + (layL M F (fieldList M m)).length) / 256 % 256)] ++ layL M F (fieldList M m))
+              (4 + (layL M F (fieldList M m)).length + (if fcsOn m then 4 else 0) + innerLen)
+      = .ok ({ version := ver, pad := pad, payload := layL M F (fieldList M m) }, innerLen) := by
+  obtain ⟨p0, hp0, _⟩ := mk_layL hwf hF (fieldList_sorted M m) (fieldList_sized hm)
+  obtain ⟨h1, h2⟩ := fcsOf_layout hwf hF hin hm
+  have h4 : 4 ≤ (layL M F (fieldList M m)).length := by rw [layL_length]; omega
+  have := parseCtor_serialized_any (M := M) _ p0 hp0 h4 ver pad innerLen hver hpad hlen (by rw [h1]; exact hinner)
+    (by rw [h1, h2]; exact hok)
+  rw [h1] at this
+  exact this
+
+theorem parseCtor_serialized {M : Meta} (hwf : M.wf) (_hflags : M.size 1 = 1) {m : FMap} (hm : sized M m)
+    (ver pad innerLen : Nat) (hver : ver < 256) (hpad : pad < 256)
+    (hlen : 4 + (canonical M m).length < 65536)
+    (hinner : 4 ≤ innerLen + (if fcsOn m then 4 else 0))
+    (hok : ¬ (fcsOn m = true ∧ badFcs m = true)) :
+    parseCtor M ([UInt8.ofNat ver, UInt8.ofNat pad, UInt8.ofNat ((4 + (canonical M m).length) % 256),
+                  UInt8.ofNat ((4 + (canonical M m).length) / 256 % 256)] ++ canonical M m)
+              (4 + (canonical M m).length + (if fcsOn m then 4 else 0) + innerLen)
+      = .ok ({ version := ver, pad := pad, payload := canonical M m }, innerLen) := by
+  have hc : canonical M m = layL M Frame.nil (fieldList M m) := by rw [layL_nil]; rfl
+  rw [hc] at hlen ⊢
+  exact parseCtor_serialized_layout hwf (Frame.nil_ok M) (Frame.nil_inert M) hm ver pad innerLen hver hpad hlen hinner hok
 
 end Tins.RT
